@@ -312,6 +312,16 @@ func (fc *FuncCtx) exec(st *State, s ast.Stmt) *State {
 		if ct, ok := fc.typeOf(x.Chan).Underlying().(*types.Chan); ok {
 			v = fc.convertImplicit(st, v, ct.Elem())
 		}
+		if fc.contract != nil && fc.contract.Opts["nonblocking"] != "" {
+			if key := fc.globalKey(x.Chan); key != "" {
+				name := key[strings.LastIndex(key, ".")+1:]
+				for _, want := range strings.Fields(fc.contract.Opts["nonblocking"]) {
+					if want == name {
+						fc.oblige(st, "chan.nonblocking", name, strconv.FormatBool(fc.inNonBlocking), x, "the send on "+name+" must not block this function: it has to be a case of a select with a default clause")
+					}
+				}
+			}
+		}
 		fc.chanSend(st, x.Chan, v, x)
 		fc.ownSend(st, x.Value, x)
 		fc.ghostSend(st, x)
@@ -695,7 +705,16 @@ func (fc *FuncCtx) execSelect(st *State, x *ast.SelectStmt, label string) *State
 		}
 		fc.ghostEvent(b, "select", i, cc)
 		if cc.Comm != nil {
+			hasDefault := false
+			for _, c2 := range x.Body.List {
+				if c2.(*ast.CommClause).Comm == nil {
+					hasDefault = true
+				}
+			}
+			saved := fc.inNonBlocking
+			fc.inNonBlocking = hasDefault
 			b = fc.exec(b, cc.Comm)
+			fc.inNonBlocking = saved
 		}
 		outs = append(outs, fc.execBlock(b, cc.Body))
 	}
@@ -741,5 +760,16 @@ func (fc *FuncCtx) ghostSend(st *State, n *ast.SendStmt) {
 			fc.oldState.ghost[name] = cur
 		}
 		st.ghost[name] = mkMath("(+ " + cur.S + " 1)")
+	} else if id, ok := unparen(n.Chan).(*ast.Ident); ok {
+		if v, ok := fc.info.ObjectOf(id).(*types.Var); ok && fc.isLocal(v) {
+			name := "sends_" + id.Name
+			if cur, ok := st.ghost[name]; ok {
+				st.ghost[name] = mkMath("(+ " + cur.S + " 1)")
+				saved := fc.quiet
+				fc.quiet = true
+				st.ghost["lastsent_"+id.Name] = fc.eval(st, n.Value)
+				fc.quiet = saved
+			}
+		}
 	}
 }
